@@ -11,3 +11,4 @@ for p in $B/repo-?.patch; do
   echo "$x $(git -C /repo rev-parse --short HEAD) $(head -1 $B/message-$x.txt)"
 done
 cp -a $B/verif/. /verif/
+/venv/bin/python -m tools.pins --update   # the repaired source is the new reference for the source pins
